@@ -130,6 +130,15 @@ class FcLen(FcStore):
         yield ("len", len(self.b))
 
 
+class FcRefuse(FcStore):
+    """refuses particular values with LenaStopFill (a refused value was not filled: it belongs to no block)"""
+
+    def fill(self, v):
+        if v in (4, 9) and v is not False:
+            raise lena.core.LenaStopFill()
+        self.b.append(v)
+
+
 class FrStore(object):
     def __init__(self):
         self.b = []
@@ -178,9 +187,12 @@ FILL_KINDS = {"fc_store": FcStore, "fc_two": FcTwo, "fc_sparse": FcSparse, "fc_l
 HAS_RESET = {"cntrun", "fc_store", "fc_two", "fc_sparse", "fc_len", "sum", "lena_sum", "storefilled", "fr_store"}
 KINDS = dict(RUN_KINDS)
 KINDS.update(FILL_KINDS)
+HAS_RESET.add("fc_refuse")
 
 
 def make_el(kind):
+    if kind == "fc_refuse":
+        return FcRefuse()
     return KINDS[kind]()
 
 
@@ -195,7 +207,47 @@ def norm(results):
     return [copy.deepcopy(r) for r in results]
 
 
+class Renamed(object):
+    """the wrapped element behind other method names; the usual names exist too and mean something else"""
+
+    def __init__(self, el):
+        self._el = el
+        self.put = el.fill
+        if hasattr(el, "request"):
+            self.ask = el.request
+        else:
+            self.ask = el.compute
+        if hasattr(el, "reset"):
+            self.clear = el.reset
+
+    def fill(self, v):
+        self._el.fill(("wrong-method", v))
+
+    def request(self):
+        yield "wrong-method"
+
+    def compute(self):
+        yield "wrong-method"
+
+    def reset(self):
+        self._el.fill("wrong-reset")
+
+
 def make_fr(cfg, el=None):
+    if cfg.get("renamed") and el is None and cfg["kind"] in FILL_KINDS and cfg["kind"] not in ("lena_sum", "sum", "storefilled"):
+        inner = make_el(cfg["kind"])
+        kw = {"bufsize": cfg["n"], "yield_on_remainder": cfg["yor"], "fill": "put", "request": "ask"}
+        if hasattr(inner, "reset"):
+            kw["reset_name"] = "clear"
+        if cfg["mode"] == "in":
+            kw["buffer_input"] = True
+        elif cfg["mode"] == "out":
+            kw["buffer_output"] = True
+        if cfg["reset"] is not None and hasattr(inner, "reset"):
+            kw["reset"] = cfg["reset"]
+        elif not hasattr(inner, "reset"):
+            kw["reset"] = False
+        return FillRequest(Renamed(inner), **kw)
     kw = {"bufsize": cfg["n"], "yield_on_remainder": cfg["yor"]}
     if cfg["mode"] == "in":
         kw["buffer_input"] = True
@@ -353,11 +405,19 @@ def judge_run(case):
 @st.composite
 def history_case(draw, big=False):
     cfg = draw(cfgs(FILL_KINDS))
+    if draw(st.integers(0, 7)) == 0:
+        # an element that refuses some values (LenaStopFill from its fill): the value is not counted, the caller
+        # (like Split) asks for the results once more and stops. (Not with buffer_input, where the element is
+        # filled only when results are requested.)
+        cfg["kind"], cfg["mode"], cfg["reset"] = "fc_refuse", draw(st.sampled_from(["out", "out", "none"])), draw(st.booleans())
+        if cfg["mode"] == "none":
+            cfg["yor"] = True
     if big:
         cfg["n"] = draw(st.integers(1, 9))
     if cfg["yor"] and draw(st.booleans()):
         # with yield_on_remainder neither buffer has to be given
         cfg["mode"] = "none"
+    cfg["renamed"] = draw(st.integers(0, 3)) == 0      # the element's methods given by name (fill=, request=, reset_name=)
     nops = draw(st.integers(0, 90 if big else 30))
     # request probability varies per case so that long runs of fills occur
     preq = draw(st.sampled_from([1, 2, 3, 5]))
@@ -400,7 +460,11 @@ def judge_history(case):
                     else:
                         got = list(fr.request())
                 else:
-                    fr.fill(op)
+                    refused = False
+                    try:
+                        fr.fill(op)
+                    except lena.core.LenaStopFill:
+                        refused = True
         except instr.StepBudgetExceeded:
             raise Violation("fill-request-call-does-not-terminate",
                             "%s: op %d (%r) of %s took more than %d steps" % (cfg, i, op, ops, STEP_BUDGET))
@@ -426,7 +490,25 @@ def judge_history(case):
             if bi is not None and len(bi) >= n:
                 raise Violation("buffer-not-drained-by-request", "%s ops %s: _buffer_in %s" % (cfg, ops[:i + 1], short(bi)))
         else:
-            ref.fill(op)
+            try:
+                ref.fill(op)
+                ref_refused = False
+            except lena.core.LenaStopFill:
+                ref_refused = True
+            if refused != ref_refused:
+                raise Violation("lenastopfill-of-the-element-not-passed-on",
+                                "%s ops %s: fill(%r) %s, the wrapped element %s" % (
+                                    cfg, ops[:i + 1], op, "raised LenaStopFill" if refused else "returned",
+                                    "refuses that value" if ref_refused else "accepts it"))
+            if refused:
+                # the caller finalises: one more request, judged like every other, and nothing after it
+                got, exp = list(fr.request()), ref.request()
+                if norm(got) != norm(exp):
+                    raise Violation("request-differs-from-reference",
+                                    "%s ops %s: the element refused %r, the final request yields %s, expected %s (a refused value belongs to no block)" % (
+                                        cfg, ops[:i + 1], op, short(got, 300), short(exp, 300)))
+                classes.append("element-refused-a-value")
+                return {"nontrivial": True, "classes": classes}
             filled.append(op)
             since_req += 1
             bi, bo = _buffers(fr, n)
